@@ -77,7 +77,11 @@ def q_same(itp, a, b, node, what):
     if a is None or b is None:
         return None
     if (isinstance(a, tuple) and a[0] == 'partial') or (isinstance(b, tuple) and b[0] == 'partial'):
-        return q_join(a, b)
+        r = q_join(a, b)
+        if r is None:
+            itp.conflict(what, 'q', 'modulation charges %s and %s are inconsistent (a missing/extra conjugate or a wrong index)'
+                         % (show(a), show(b)), node)
+        return r
     if a == 'any':
         return b
     if b == 'any':
